@@ -218,6 +218,7 @@ theorem slots_of_reads (w : Nat) (m : Mem) (F : Nat) : ∀ (args : List Int) (i 
 /-- the flags a run ends with -/
 def terminalEvs : Res → List Ev
   | .div0 => [Ev.flag "division_by_zero", Ev.flag "error"]
+  | .ovf => [Ev.flag "stack_overflow", Ev.flag "error"]
   | _ => [Ev.flag "win"]
 
 /-- the static conditions of `wfProg`, as the proofs use them -/
@@ -254,7 +255,7 @@ theorem init_inv (cf : Config) (args : List Int) (pr : CProg) (hw : 2 ≤ cf.w)
       (progLen cf.checked pr + off_all_is_win) := by
   have hF : F0 cf args = 5 * cf.w + cf.stackWords * cf.w + args.length * cf.w + cf.w := rfl
   refine ⟨⟨initMem_fp cf args pr hw hSE, initMem_ap cf args pr hw, by rw [initMem_size]; exact Nat.le_refl _, hSE,
-    by show 5 * cf.w + _ ≤ _; rw [hF]; omega⟩, ?_, initMem_ra cf args pr hw hB⟩
+    by show 5 * cf.w + _ = _; rw [hF]; omega⟩, ?_, initMem_ra cf args pr hw hB⟩
   have hs := slots_of_reads cf.w (initMem cf args pr) (F0 cf args) args 0
     (fun j hj => by rw [Nat.zero_add]; exact initMem_arg cf args pr hw j hj)
   rw [Nat.zero_add] at hs
@@ -279,13 +280,22 @@ theorem core_correct (cf : Config) (args : List Int) (pr : CProg) (hw : 2 ≤ cf
     (hwf : wfProg pr = true) (hlen : args.length = pr.params.length)
     (fuel : Nat) (env' : Env) (tr : List Ev) (res : Res)
     (hex : srcRun cf fuel args pr = some (env', tr, res))
-    (hck : res = .div0 → cf.checked = true)
+    (hck : res = .div0 ∨ res = .ovf → cf.checked = true)
+    (hpkF : res = .ovf → ∀ fd ∈ pr.funs, pkS cf.w (entryOff cf.w fd.params) fd.body < 256 ^ cf.w)
     (hroom : pkS cf.w (entryOff cf.w pr.params) pr.body ≤ roomOf cf args) :
     ∃ mEnd, Exec (sphinx (coreProg cf pr)) (coreInit cf args pr) (tr ++ terminalEvs res)
         ⟨tntPc (progLen cf.checked pr), mEnd⟩ ∧
       ¬ Halts (sphinx (coreProg cf pr)) (coreInit cf args pr) := by
   have lib := core_placed cf pr hw hB
   have fok := core_fnsOK cf pr hwf
+  have hfo : FaultOK cf.checked pr.funs cf.w res := by
+    cases res with
+    | div0 => exact hck (Or.inl rfl)
+    | ovf => exact ⟨hck (Or.inr rfl), hpkF rfl⟩
+    | norm => trivial
+    | returned => trivial
+    | defeat => trivial
+    | retv v => trivial
   change pkS cf.w (entryOff cf.w pr.params) pr.body ≤ cf.stackWords * cf.w + args.length * cf.w + cf.w at hroom
   change exec (256 ^ cf.w) (8 * cf.w) pr.funs cf.w fuel (cf.stackWords * cf.w + args.length * cf.w + cf.w)
     (entryOff cf.w pr.params) (argEnv (256 ^ cf.w) pr.params args) pr.body = some (env', tr, res) at hex
@@ -345,10 +355,11 @@ theorem core_correct (cf : Config) (args : List Int) (pr : CProg) (hw : 2 ≤ cf
     | returned => simp only [Post] at hp'; obtain ⟨rfl, _⟩ := hp'; exact ⟨tn.1, m', all_is_win_reach lib m'⟩
     | retv v => simp only [Post] at hp'; obtain ⟨rfl, _⟩ := hp'; exact ⟨tn.1, m', all_is_win_reach lib m'⟩
     | div0 => simp only [Post] at hp'; subst hp'; exact ⟨tn.2.2.2.1, m', (error_stub_reach lib m').2.1⟩
+    | ovf => simp only [Post] at hp'; subst hp'; exact ⟨tn.2.2.1, m', (error_stub_reach lib m').1⟩
     | defeat => exact absurd rfl hnd'
   obtain ⟨st', r, hpost⟩ := (hbody (initMem cf args pr) env' tr res hbodyP (by omega) hinv0
     (disj_paramGam cf.w pr.params (2 * cf.w) hnd)
-    (by rw [map_fst_paramGam]; exact hwfb) hroom (by rw [heo]; omega) hex hck
+    (by rw [map_fst_paramGam]; exact hwfb) hroom (by rw [heo]; omega) hex hfo
     (Or.inr ⟨hyl, fun st' h => (hsafe st' h).1⟩)).2 hnd'
   obtain ⟨mEnd, rend⟩ := (hsafe st' hpost).2
   have rall := (hpro.trans r).trans rend
@@ -388,13 +399,13 @@ theorem core_overflow (cf : Config) (args : List Int) (pr : CProg) (hw : 2 ≤ c
   · have := (r.exec nh).1; simpa [coreInit] using this
   · have := (r.exec nh).2; simpa [coreInit] using this
 
-/-- a conclusive source run stays the same at every larger stack size -/
+/-- a conclusive source run that is not a stack overflow stays the same at every larger stack size -/
 theorem srcRun_stack_mono (w S S' : Nat) (ck : Bool) (hS : S ≤ S') (fuel : Nat) (args : List Int) (pr : CProg)
-    (r : Env × List Ev × Res) (h : srcRun ⟨w, S, ck⟩ fuel args pr = some r) :
-    srcRun ⟨w, S', ck⟩ fuel args pr = some r :=
-  exec_room_mono _ _ _ _ _ _ _ _ _ _ _ (by
+    (env' : Env) (tr : List Ev) (res : Res) (h : srcRun ⟨w, S, ck⟩ fuel args pr = some (env', tr, res)) (hno : res ≠ .ovf) :
+    srcRun ⟨w, S', ck⟩ fuel args pr = some (env', tr, res) :=
+  exec_room_mono _ _ _ _ _ _ _ _ _ _ _ _ _ (by
     show S * w + args.length * w + w ≤ S' * w + args.length * w + w
-    have := Nat.mul_le_mul_right w hS; omega) h
+    have := Nat.mul_le_mul_right w hS; omega) h hno
 
 /-- however a statement list without `try` is left — falling through, `return`, `return e` — after any
 number of loop iterations and calls inside it, the frame pointer, `ap` and all memory at and above the
@@ -411,7 +422,7 @@ theorem core_frame_restored {p : Prog} {ck : Bool} {B : Nat} {fa : FAddr} {fns :
     ∃ st', Reach (sphinx p) ⟨pc, m⟩ tr st' ∧ Keep p.w m st'.mem F ∧ st'.mem.readLE p.w p.w = F ∧
       (res = .norm → st'.pc = pc + (cS (cxOf p ck B) fa Γ pc o s).length) ∧ (res ≠ .norm → st'.pc = ra) := by
   have hc := cS_ok lib fok fuel F D ra hra s Γ env pc o m env' tr res hpl hB hinv hd hwf hpk ho hex
-    (by rcases hres with h | h | ⟨v, h⟩ <;> subst h <;> intro h <;> cases h) (Or.inl hnt)
+    (by rcases hres with h | h | ⟨v, h⟩ <;> subst h <;> trivial) (Or.inl hnt)
   obtain ⟨st', r, hp⟩ := hc.2 (by rcases hres with h | h | ⟨v, h⟩ <;> subst h <;> simp)
   have hfp := hinv.fr.fp
   rcases hres with h | h | ⟨v, h⟩ <;> subst h <;> simp only [Post] at hp
